@@ -30,10 +30,12 @@ func c05(p *Prog, r *Report) {
 	const R3 = "C05.isolation"
 	const R4 = "C05.issuer-lookup"
 	const R5 = "C05.issuer-evaluate-error-discipline"
+	const R6 = "C05.every-issuer-registered"
 	r.Rule(R1, "responses = make(len(requests)); slot stores use the request loop index; emit loop writes one status byte per slot with present <=> non-empty slot, same index throughout; decoder mirrors the layout", 5)
 	r.Rule(R2, "values stored into a slot are empty or issuer.Evaluate(request)'s first result on the err == nil edge", 1)
 	r.Rule(R3, "no return/panic inside the request loop; a failing issuer does not end the search (control returns to the issuer loop)", 2)
 	r.Rule(R4, "issuer list = i.issuers[request.Type()]; key match = request.TruncatedTokenKeyID() vs last byte of that issuer's TokenKeyID(); the matched issuer evaluates the current request", 3)
+	r.Rule(R6, "the batch issuer's constructor registers each issuer argument under issuer.Type() on every iteration (none is dropped)", 1)
 	r.Rule(R5, "type1/type2 issuer Evaluate: success only behind the success edges of decode, evaluate and encode steps; every error result is branched on or returned", 7)
 
 	fn := anchor(p, r, R1, "(~/tokens/batched.BasicBatchedIssuer).EvaluateBatch")
@@ -302,6 +304,51 @@ func c05(p *Prog, r *Report) {
 		}
 	}
 	r.Check(cont, R3, "a failing issuer does not end the search", p.InstrPos(ev), "err != nil edge returns to the issuer loop", "after issuer.Evaluate fails control cannot reach another issuer of the list: a later matching issuer is never tried")
+
+	// R6: the constructor registers every issuer it is given under the issuer's
+	// own token type - no iteration of its loop may skip the registration
+	if ctor := anchor(p, r, R6, "~/tokens/batched.NewBasicBatchedIssuer"); ctor != nil {
+		cs := p.NewSym(ctor)
+		var regs []*ssa.MapUpdate
+		for _, b := range ctor.Blocks {
+			for _, in := range b.Instrs {
+				if mu, ok := in.(*ssa.MapUpdate); ok {
+					if ap, ok := mu.Value.(*ssa.Call); ok {
+						if bi, ok := ap.Call.Value.(*ssa.Builtin); ok && bi.Name() == "append" {
+							regs = append(regs, mu)
+						}
+					}
+				}
+			}
+		}
+		okReg, why := len(regs) == 1, fmt.Sprintf("found %d registration sites (issuers[type] = append(issuers[type], issuer))", len(regs))
+		if okReg {
+			mu := regs[0]
+			ap := mu.Value.(*ssa.Call)
+			el := cs.Of(ap.Call.Args[1]).String()
+			key := cs.Of(mu.Key).String()
+			loop := innermostLoop(naturalLoops(ctor), mu.Block())
+			switch {
+			case loop == nil:
+				okReg, why = false, "the registration is not inside the loop over the issuers"
+			case !glob("list(index(param:0, *))", el) && !glob("*index(param:0, *)*", el):
+				okReg, why = false, "the value appended is "+clip(el, 160)+", not the current element of the issuers argument"
+			case !glob("call<(tokens/batched.Issuer).Type>(index(param:0, *))", key):
+				okReg, why = false, "registered under "+clip(key, 160)+", required the issuer's own Type()"
+			default:
+				// every path through one iteration performs the registration: the
+				// update's block dominates every back edge of the loop
+				for blk := range loop.Blocks {
+					for _, su := range blk.Succs {
+						if su == loop.Header && !mu.Block().Dominates(blk) && blk != mu.Block() {
+							okReg, why = false, "an iteration can reach the next one without registering the issuer (skip/continue before the registration at "+p.InstrPos(mu)+")"
+						}
+					}
+				}
+			}
+		}
+		r.Check(okReg, R6, "NewBasicBatchedIssuer registers every issuer under its own type", p.Pos(ctor.Pos()), "issuers[issuer.Type()] = append(..., issuer) on every iteration", why)
+	}
 
 	// emit layout + decoder (shared with C04)
 	ne1, _ := p.constInt("~/tokens/type1", "Ne")
